@@ -55,7 +55,12 @@ view == <<epoch, imm, recorded, roundFor, open, sigs, buffered, certs, arts, sm,
 NoEntity == <<"none">>
 MSD(e) == <<"MSD", e>>
 CDB(e, i) == <<"CDB", e, i>>
-EntityEpoch(en) == en[2]
+\* the Cardano stake distribution of epoch e is only final in epoch e + 1: it is signed (open message,
+\* signer set, certificate epoch) in e + 1 (SignedEntityType::get_epoch_when_signed_entity_type_is_signed)
+CSD(e) == <<"CSD", e>>
+EntityEpoch(en) == IF en[1] = "CSD" THEN en[2] + 1 ELSE en[2]
+Current(kind) == IF kind = "MSD" THEN MSD(epoch) ELSE IF kind = "CSD" THEN CSD(epoch - 1) ELSE CDB(epoch, imm)
+CurrentEntities == {Current("MSD"), Current("CSD"), Current("CDB")}
 
 SignersOf(e) == IF e - 1 \in DOMAIN recorded THEN recorded[e - 1] ELSE {}
 
@@ -105,7 +110,7 @@ Sign(p, lbl, en) ==
 (* an authenticated signature for the current beacon of a type whose open message does not exist yet *)
 (* is buffered (BufferedCertifierService) and handed over when the open message is created            *)
 SignEarly(p, lbl, en) ==
-    /\ en \in {MSD(epoch), CDB(epoch, imm)}
+    /\ en \in CurrentEntities
     /\ ~\E m \in open : m.entity = en
     /\ p \in SignersOf(EntityEpoch(en)) /\ lbl \in SignersOf(EntityEpoch(en))
     /\ (LabelChecked => lbl = p)
@@ -172,12 +177,11 @@ TickBlocked ==
     /\ UNCHANGED <<epoch, imm, recorded, roundFor, open, sigs, buffered, certs, arts, sealing>>
 
 (* READY: first signable entity type without a certified / expired open message *)
-Candidates == <<MSD(epoch), CDB(epoch, imm)>>
+Candidates == <<Current("MSD"), Current("CSD"), Current("CDB")>>   \* discriminant order
 OpenFor(en) == {m \in open : m.entity = en}
 Pick ==   \* index in Candidates of the first entity to work on, 0 if none
-    IF OpenFor(Candidates[1]) = {} \/ \E m \in OpenFor(Candidates[1]) : ~m.certified /\ ~m.expired THEN 1
-    ELSE IF OpenFor(Candidates[2]) = {} \/ \E m \in OpenFor(Candidates[2]) : ~m.certified /\ ~m.expired THEN 2
-    ELSE 0
+    LET Workable(i) == OpenFor(Candidates[i]) = {} \/ \E m \in OpenFor(Candidates[i]) : ~m.certified /\ ~m.expired IN
+    IF Workable(1) THEN 1 ELSE IF Workable(2) THEN 2 ELSE IF Workable(3) THEN 3 ELSE 0
 TickReady ==
     /\ sm.state = "ready" /\ sealing = "none"
     /\ IF sm.tpEpoch < epoch
@@ -202,7 +206,7 @@ TickReady ==
 
 Outdated(en) ==
     \/ \E m \in OpenFor(en) : m.expired
-    \/ en # (IF en[1] = "MSD" THEN MSD(epoch) ELSE CDB(epoch, imm))
+    \/ en # Current(en[1])
 
 ValidOwners(en) == {s.owner : s \in {t \in sigs : t.entity = en}} \cap SignersOf(EntityEpoch(en))
 Labels(en)      == {s.label : s \in {t \in sigs : t.entity = en}}
@@ -289,7 +293,7 @@ Env == \/ \E n \in 1..2 : EpochUp(n)
        \/ ImmUp
        \/ \E S \in RegSets : Register(S)
        \/ \E p, lbl \in Party : \E en \in OpenEntities : Sign(p, lbl, en)
-       \/ \E p, lbl \in Party : \E en \in {MSD(epoch), CDB(epoch, imm)} : SignEarly(p, lbl, en)
+       \/ \E p, lbl \in Party : \E en \in CurrentEntities : SignEarly(p, lbl, en)
        \/ \E p \in Party : \E en \in OpenEntities : SignLate(p, en)
        \/ \E p, lbl \in Party : \E en \in OpenEntities : SignBad(p, lbl, en)
        \/ \E en \in OpenEntities : Expire(en)
